@@ -9,6 +9,7 @@ Impl = Def, symmetry and absence of bitwise-OR garbage.  Binding, per enumerated
      form evaluated on Def's integer coefficients (a randomised identity test of every coefficient of every entry);
  (2) physical run - with the real structure function every entry must equal sum coef * D_vk(sqrt(q)) from an independent
      evaluation of the von Karman law; the matrix must be symmetric bit for bit and positive semi-definite to float32."""
+import json
 import math
 import warnings
 
@@ -50,19 +51,20 @@ def d_vk(r, r0, L0):
 
 def build(sc, c, threads=1, r0s=None, wavel=None):
     nw = c["nw"]
-    n = c["n"][0]
     masks = []
-    for cells in c["masks"]:
-        m = np.zeros((n, n))
+    for i, cells in enumerate(c["masks"]):
+        m = np.zeros((c["n"][i], c["n"][i]))
         for r_, c_ in cells:
             m[r_, c_] = 1
         masks.append(m)
+    dias = [d * HU for d in c["dia"]]
+    tel = c["n"][0] * dias[0]
     nl = len(c["heights"])
     alts = np.array([h * H1 for h in c["heights"]], float)
     gs_alt = np.array([2 * H1 if lg else 0.0 for lg in c["lgs"]])
     gs_pos = np.array([[o[0] * HU / H1 * 180 * 3600 / np.pi, o[1] * HU / H1 * 180 * 3600 / np.pi] for o in c["off"]])
     r0s = (r0s or R0S)[:nl] if len(c["heights"]) > 1 or c["heights"][0] == 0 else (r0s or R0S)[:nl]
-    cm = sc.CovarianceMatrix(nw, np.array(masks), n * D_SUB, np.array([D_SUB] * nw), gs_alt, gs_pos, np.array((wavel or WAVEL)[:nw]),
+    cm = sc.CovarianceMatrix(nw, masks, tel, np.array(dias), gs_alt, gs_pos, np.array((wavel or WAVEL)[:nw]),
                              nl, alts, np.array(r0s), np.array(L0S[:nl]), threads=threads)
     return cm
 
@@ -87,8 +89,8 @@ def expected(c, value_of_atom, r0s=None, wavel=None):
             i, j = rows[r][0], rows[cc][0]
             tot = 0.0
             for (l, q, coef) in c["def"][r][cc]:
-                dil = D_SUB * c["s2"][i][l - 1] / 2.0
-                djl = D_SUB * c["s2"][j][l - 1] / 2.0
+                dil = c["dia"][i] * HU * c["s2"][i][l - 1] / 2.0
+                djl = c["dia"][j] * HU * c["s2"][j][l - 1] / 2.0
                 tot += coef * value_of_atom(l, q) * wl[i] * wl[j] / (8 * np.pi ** 2 * dil * djl)
             E[r, cc] = E[cc, r] = tot
     return E, rows
@@ -97,7 +99,7 @@ def expected(c, value_of_atom, r0s=None, wavel=None):
 def classify(c, rows, r, cc):
     (i, a1, _), (j, a2, _) = rows[r], rows[cc]
     geo = []
-    if c["lgs"][i] != c["lgs"][j]:
+    if c["lgs"][i] != c["lgs"][j] or c["dia"][i] != c["dia"][j]:
         geo.append("unequal-projected-diameters")
     if c["off"][i] != c["off"][j]:
         geo.append("different-layer-translation")
@@ -164,6 +166,28 @@ def check_config(sc, c, do_mp=False, do_scaling=False):
     return bad, info
 
 
+def gs_positions_for(c):
+    return np.array([[o[0] * HU / H1 * 180 * 3600 / np.pi, o[1] * HU / H1 * 180 * 3600 / np.pi] for o in c["off"]])
+
+
+def check_reconfigured(sc, c_first, c_second):
+    """one object: built for c_first, then its guide-star directions are changed to those of c_second (same sensors, masks and
+    layers) and it is built again - the second matrix must be the one of c_second (probe run)"""
+    orig = sc.structure_function_vk
+    sc.structure_function_vk = make_probe(R0S)
+    try:
+        cm = build(sc, c_first)
+        cm.make_covariance_matrix()
+        cm.gs_positions = gs_positions_for(c_second)
+        got = np.asarray(cm.make_covariance_matrix(), float)
+    finally:
+        sc.structure_function_vk = orig
+    exp, rows = expected(c_second, lambda l, q: float(g_rand(l, q)))
+    if got.shape != exp.shape or np.abs(got - exp).max() > 2e-5 * np.abs(exp).max():
+        return [("covariance:stale-geometry-after-reconfigure", dict(first_off=c_first["off"], second_off=c_second["off"]))]
+    return []
+
+
 def _sc():
     core.import_aotools()
     from aotools.turbulence import slopecovariance
@@ -181,8 +205,16 @@ def run(run):
     warnings.simplefilter("ignore")
     n = 0
     mineig = 0.0
+    last = {}
+    n_reconf = 0
     with np.errstate(all="ignore"):
         for k, c in enumerate(r.printed):
+            gkey = json.dumps([c["nw"], c["masks"], c["n"], c["dia"], c["lgs"], c["heights"]])
+            if gkey in last and last[gkey]["off"] != c["off"] and k % 3 == 0:
+                n_reconf += 1
+                for key, detail in check_reconfigured(sc, last[gkey], c):
+                    run.violation(key, detail, dict(kind="reconfigure", first=last[gkey], second=c))
+            last[gkey] = c
             bad, info = check_config(sc, c, do_mp=(k % 40 == 0), do_scaling=(k % 25 == 0))
             n += 1
             mineig = min(mineig, info.get("min_eig_rel", 0.0))
@@ -191,7 +223,7 @@ def run(run):
             for key, detail in bad:
                 run.violation(key, detail, c)
     run.traces += n
-    run.aux.update(configurations=n, most_negative_eigenvalue_rel=mineig, trusted=["scipy.special.kv/gamma", "numpy.linalg.eigvalsh"])
+    run.aux.update(configurations=n, reconfigured_rebuilds=n_reconf, most_negative_eigenvalue_rel=mineig, trusted=["scipy.special.kv/gamma", "numpy.linalg.eigvalsh"])
     run.assumptions += [
         "positive semi-definiteness as an eigenvalue fact is an auxiliary float check; it is implied by Impl = Def (a Gram matrix)",
         "probe run: pseudo-random atom values make a wrong integer coefficient visible with overwhelming probability (tolerance 2e-5, float32 matrix)",
@@ -202,6 +234,10 @@ def run(run):
 def replay(run, case):
     sc = _sc()
     warnings.simplefilter("ignore")
+    if case.get("kind") == "reconfigure":
+        for key, detail in check_reconfigured(sc, case["first"], case["second"]):
+            run.violation(key, detail, case)
+        return
     with np.errstate(all="ignore"):
         bad, _ = check_config(sc, case, do_mp=True, do_scaling=True)
     for key, detail in bad:
